@@ -277,14 +277,13 @@ def display_array(case, truth, k):
     a = truth[s["oy"]:s["oy"] + s["h"], s["ox"]:s["ox"] + s["w"]].copy()
     if not case["agree"]:
         a += 1000.0 * (k + 1)
-    if s["bl"]:
-        a[:, :s["bl"]] = np.nan
-    if s["br"]:
-        a[:, s["w"] - s["br"]:] = np.nan
-    if s["bt"]:
-        a[:s["bt"], :] = np.nan
-    if s["bb"]:
-        a[s["h"] - s["bb"]:, :] = np.nan
+    # exactly Mosaic!DefLocal: defined iff bl <= x < w - br and bt <= y < h - bb (and outside the hole).  A border may be
+    # wider than the image (the input is then wholly undefined): the bounds are clamped, a negative slice start would
+    # count from the other end
+    a[:, :min(s["bl"], s["w"])] = np.nan
+    a[:, max(0, s["w"] - s["br"]):] = np.nan
+    a[:min(s["bt"], s["h"]), :] = np.nan
+    a[max(0, s["h"] - s["bb"]):, :] = np.nan
     a[s["hy0"]:s["hy1"], s["hx0"]:s["hx1"]] = np.nan
     return a
 
